@@ -77,13 +77,19 @@ for d in sorted(glob.glob(os.path.join(VERIF, "seeded", "C*_*"))):
 rows = []
 for d in sorted(glob.glob(os.path.join(VERIF, "seeded", "C*_*"))):
     m = json.load(open(os.path.join(d, "meta.json")))
-    rows.append("| %s | %s | %s | %s |" % (m["id"], m["breaks_property"],
-                                         "yes" if m.get("detected_by_quick_check") else "no",
-                                         ", ".join(m.get("also_detected_by", [])) or "-"))
+    NOTES = {"C08_F": "makes conversion refuse documents it used to convert (nothing wrong is returned): outside what the property states",
+             "C10_H": "changes the treatment of NON-conforming strings only, which C10 leaves open",
+             "C04_B": "known miss: strokes thinner than the tolerance under magnification (inside StrokeSem's band)"}
+    if m.get("still_valid") is False:
+        own, note = "n/a", "neutralised by a later fix: commit (its demonstration no longer fails)"
+    else:
+        own, note = ("yes" if m.get("detected_by_quick_check") else "no"), NOTES.get(m["id"], "")
+    rows.append("| %s | %s | %s | %s | %s |" % (m["id"], m["breaks_property"], own,
+                                              ", ".join(m.get("also_detected_by", [])) or "-", note))
 open(os.path.join(VERIF, "seeded", "SUMMARY.md"), "w").write(
     "# Seeded changes (confirmed against the repaired tree)\n\n"
     "Each directory holds patch.diff, the demonstration, the agent's notes and meta.json (what was run).\n\n"
-    "| id | breaks | caught by its own quick check | also caught by |\n|---|---|---|---|\n" + "\n".join(rows) + "\n\n"
+    "| id | breaks | caught by its own quick check | also caught by | note |\n|---|---|---|---|---|\n" + "\n".join(rows) + "\n\n"
     "Not kept (round 1): C07_B, C08_B, C09_B - their demonstrations pass with the patch on the repaired tree "
     "(a fix: commit cleans up what they break: the closing group/orphan-gradient passes, arcs_to_cubics "
     "making shorthand explicit); C15_B - the code it patches (the cached branch of apply_style_attributes) "
